@@ -20,5 +20,6 @@ CONSTANTS
   NilForGone = TRUE
   Validate = FALSE
   BumpOnRemove = TRUE
+  BumpOnEntry = TRUE
 VIEW View
 INVARIANTS NoError StructureOK
